@@ -18,7 +18,7 @@ type Clause struct {
 	Expr  CExpr
 	Line  int
 	File  string
-	Thor  bool // thorough tier only
+	Thor  bool   // thorough tier only
 	Mode  string // "int": discharge in the integer encoding first
 	Slow  bool   // needs several seconds: gets six times the per-obligation budget
 }
@@ -49,35 +49,38 @@ type PureFn struct {
 }
 
 type FuncSpec struct {
-	Pkg      string // package path
-	Name     string // SSA-relative name: F, (T).M, (*T).M, F$1
-	Mode     string // bv | int
-	Inline   bool
-	Modular  bool
-	Trusted  bool // body not verified; contract assumed (listed in evidence)
-	Requires []*Clause
-	Ensures  []*Clause
-	Asserts  []*PointAssert // assert after "<statement text>" [label] expr
-	RetSites []*Clause // "returns": like ensures, but evaluated at each return statement with the locals visible there
-	Loops    map[int]*LoopSpec
-	Lets     map[string]CExpr
-	LetOrder []string
-	Props    []string
-	Modifies []string // heap names or "nothing"; empty = computed
-	Pure     bool     // no heap modification: checked against computed Mod set
-	Decr     *Clause
+	Pkg        string // package path
+	Name       string // SSA-relative name: F, (T).M, (*T).M, F$1
+	Mode       string // bv | int
+	Inline     bool
+	Modular    bool
+	Opaque     bool // callee side: never executed in place by callers, only its contract is used
+	Trusted    bool // body not verified; contract assumed (listed in evidence)
+	Requires   []*Clause
+	Ensures    []*Clause
+	Asserts    []*PointAssert // assert after "<statement text>" [label] expr
+	Assumes    []*Clause      // "assumes": unchecked environment assumptions, assumed at entry and at every call
+	RetSites   []*Clause      // "returns": like ensures, but evaluated at each return statement with the locals visible there
+	Loops      map[int]*LoopSpec
+	Lets       map[string]CExpr
+	LetOrder   []string
+	Props      []string
+	Modifies   []string // heap names or "nothing"; empty = computed
+	Pure       bool     // no heap modification: checked against computed Mod set
+	Decr       *Clause
 	StackBound int // maximal value of the decreases measure accepted from callers outside the recursion (0 = none)
-	Bounded  int
-	File     string
-	Line     int
-	NoPanic  bool // ensures: function body has no panic obligations by construction (used for trusted stubs)
-	Skip     []string
+	Bounded    int
+	File       string
+	Line       int
+	NoPanic    bool // ensures: function body has no panic obligations by construction (used for trusted stubs)
+	Skip       []string
 }
 
 // PointAssert: a clause checked right after the statement whose source text
 // (whitespace-normalised) is Stmt; the statement must be unique in the function.
 type PointAssert struct {
 	Stmt   string
+	Nth    int // 1-based occurrence of the statement text in the function (0 = must be unique)
 	Clause *Clause
 }
 
@@ -88,11 +91,11 @@ type TypeInv struct {
 }
 
 type Specs struct {
-	Funcs map[string]*FuncSpec // key: pkgpath + "." + name
-	Pures map[string]*PureFn   // key: pkgpath + "." + name ; also "" + name for global
-	Types map[string][]*TypeInv
+	Funcs  map[string]*FuncSpec // key: pkgpath + "." + name
+	Pures  map[string]*PureFn   // key: pkgpath + "." + name ; also "" + name for global
+	Types  map[string][]*TypeInv
 	NonNil map[string]bool // "pkgpath.Type.field": the field never holds nil (checked at every store, assumed at every load)
-	Files []string
+	Files  []string
 }
 
 var labelRe = regexp.MustCompile(`^\[([A-Za-z0-9_.\-,]+)\]\s*`)
@@ -100,7 +103,7 @@ var pureRe = regexp.MustCompile(`^pure\s+([A-Za-z_][A-Za-z0-9_]*)\s*\(([^)]*)\)\
 
 var clauseKeywords = map[string]bool{"requires": true, "ensures": true, "loop": true, "mode": true, "inline": true,
 	"modular": true, "modifies": true, "decreases": true, "let": true, "end": true, "func": true, "returns": true, "stackbound": true, "assert": true, "pure": true,
-	"type": true, "props": true, "bounded": true, "trusted": true, "purefn": true, "package": true, "skip": true}
+	"type": true, "props": true, "bounded": true, "trusted": true, "opaque": true, "assumes": true, "purefn": true, "package": true, "skip": true}
 
 // extractSpecLines pulls the //@ lines out of a Go file (or takes every
 // non-comment line of a .spec file).
@@ -262,6 +265,8 @@ func (sp *Specs) parseFile(path string, data []byte, pkgPath string) error {
 				cur.Inline = true
 			case "modular":
 				cur.Modular = true
+			case "opaque":
+				cur.Opaque = true
 			case "trusted":
 				cur.Trusted = true
 			case "purefn":
@@ -301,15 +306,25 @@ func (sp *Specs) parseFile(path string, data []byte, pkgPath string) error {
 					return fmt.Errorf("%s:%d: assert: quoted statement text expected", path, line)
 				}
 				end := strings.Index(r[1:], "\" ")
+				if e2 := strings.Index(r[1:], "\"@"); e2 >= 0 && (end < 0 || e2 < end) {
+					end = e2
+				}
 				if end < 0 {
 					return fmt.Errorf("%s:%d: assert: unterminated statement text", path, line)
 				}
 				stmt := r[1 : 1+end]
-				c, err := mkClause(strings.TrimSpace(r[end+2:]), line)
+				restc := strings.TrimSpace(r[end+2:])
+				nth := 0
+				if strings.HasPrefix(restc, "@") {
+					f := strings.Fields(restc)[0]
+					nth, _ = strconv.Atoi(f[1:])
+					restc = strings.TrimSpace(strings.TrimPrefix(restc, f))
+				}
+				c, err := mkClause(restc, line)
 				if err != nil {
 					return err
 				}
-				cur.Asserts = append(cur.Asserts, &PointAssert{Stmt: strings.Join(strings.Fields(stmt), " "), Clause: c})
+				cur.Asserts = append(cur.Asserts, &PointAssert{Stmt: strings.Join(strings.Fields(stmt), " "), Nth: nth, Clause: c})
 			case "stackbound":
 				n, err := strconv.Atoi(strings.TrimSpace(rest))
 				if err != nil {
@@ -322,6 +337,14 @@ func (sp *Specs) parseFile(path string, data []byte, pkgPath string) error {
 					return err
 				}
 				cur.RetSites = append(cur.RetSites, c)
+			case "assumes":
+				// an assumption about the machine/environment (e.g. a counter never reaches 2^40): assumed at
+				// entry and at every call, never checked, always listed in the evidence
+				c, err := mkClause(rest, line)
+				if err != nil {
+					return err
+				}
+				cur.Assumes = append(cur.Assumes, c)
 			case "requires", "ensures", "decreases":
 				c, err := mkClause(rest, line)
 				if err != nil {
